@@ -52,6 +52,8 @@ pub enum ModelEvaluatorError {
   EmptyEncapsulatedLogic,
   #[error("invalid item definition type for `{0}`")]
   InvalidItemDefinitionType(String),
+  #[error("item definition `{0}` refers to itself")]
+  CyclicItemDefinition(String),
   #[error("unsupported FEEL type: {0}")]
   UnsupportedFeelType(String),
   #[error("empty FEEL type")]
@@ -104,6 +106,10 @@ pub fn err_empty_encapsulated_logic() -> DmntkError {
 
 pub fn err_invalid_item_definition_type(s: &str) -> DmntkError {
   ModelEvaluatorError::InvalidItemDefinitionType(s.to_string()).into()
+}
+
+pub fn err_cyclic_item_definition(s: &str) -> DmntkError {
+  ModelEvaluatorError::CyclicItemDefinition(s.to_string()).into()
 }
 
 pub fn err_unsupported_feel_type(feel_type: FeelType) -> DmntkError {
